@@ -18,6 +18,7 @@ import (
 	"path/filepath"
 	"sort"
 	"strings"
+	"sync"
 	"testing"
 
 	"github.com/douban/gobeansdb/verifkit"
@@ -50,6 +51,7 @@ type snapshotter struct {
 	inGC     bool
 	gcOnly   bool
 	dropped  int
+	mu       sync.Mutex
 	noTorn   bool // no torn variants of data writes (the chain unit: they are C06_Kill's subject)
 }
 
@@ -120,6 +122,9 @@ func contentSignature(dir string) string {
 }
 
 func (s *snapshotter) handle(name string, args ...interface{}) {
+	// hook points fire on several goroutines (interpreter, rotation flush, a pass started through the API)
+	s.mu.Lock()
+	defer s.mu.Unlock()
 	switch name {
 	case "gc.pass.enter":
 		s.inGC = true
@@ -232,9 +237,11 @@ func (s *snapshotter) handle(name string, args ...interface{}) {
 // recovery in a child process
 
 type recoverJob struct {
-	Cfg    Cfg      `json:"cfg"`
-	Images []string `json:"images"`
-	Out    string   `json:"out"`
+	Cfg         Cfg      `json:"cfg"`
+	Images      []string `json:"images"`
+	Out         string   `json:"out"`
+	PostGC      bool     `json:"postgc"`
+	PostGCMerge bool     `json:"postgcmerge"`
 }
 
 type recKey struct {
@@ -251,6 +258,11 @@ type recResult struct {
 	OpenErr string   `json:"openerr,omitempty"`
 	Keys    []recKey `json:"keys,omitempty"`
 	Usable  string   `json:"usable,omitempty"` // "" = a probe write/read after recovery worked
+	// after the reads: one GC pass over everything below the head of every served bucket, then the keys again
+	// (an operator restarts a crashed node and GC comes by again)
+	GCErr   string   `json:"gcerr,omitempty"`
+	KeysGC  []recKey `json:"keysgc,omitempty"`
+	GCMoved int64    `json:"gcmoved,omitempty"`
 }
 
 func sumBytes(b []byte) string {
@@ -302,20 +314,24 @@ func recoverOne(job *recoverJob, i int) (res recResult) {
 		res.OpenErr = err.Error()
 		return
 	}
-	for _, key := range job.Cfg.Keys {
-		p, _, err := s.Get(newKI(key), false)
-		switch {
-		case err != nil:
-			res.Keys = append(res.Keys, recKey{S: "error", Err: err.Error()})
-		case p == nil:
-			res.Keys = append(res.Keys, recKey{S: "miss"})
-		case p.Ver < 0:
-			res.Keys = append(res.Keys, recKey{S: "tomb", Ver: p.Ver})
-		default:
-			res.Keys = append(res.Keys, recKey{S: "live", Ver: p.Ver, Flag: p.Flag, Len: len(p.Body), Sum: sumBytes(p.Body)})
+	readAll := func() (out []recKey) {
+		for _, key := range job.Cfg.Keys {
+			p, _, err := s.Get(newKI(key), false)
+			switch {
+			case err != nil:
+				out = append(out, recKey{S: "error", Err: err.Error()})
+			case p == nil:
+				out = append(out, recKey{S: "miss"})
+			case p.Ver < 0:
+				out = append(out, recKey{S: "tomb", Ver: p.Ver})
+			default:
+				out = append(out, recKey{S: "live", Ver: p.Ver, Flag: p.Flag, Len: len(p.Body), Sum: sumBytes(p.Body)})
+			}
+			freePayload(p)
 		}
-		freePayload(p)
+		return
 	}
+	res.Keys = readAll()
 	// the store must be usable after recovery: a new write goes to a new file and reads back
 	probe := []byte("verif-probe-key")
 	val := []byte("probe-value")
@@ -327,13 +343,32 @@ func recoverOne(job *recoverJob, i int) (res recResult) {
 		freePayload(p)
 	}
 	s.flushdatas(true)
+	if job.PostGC {
+		for _, bkt := range s.buckets {
+			if bkt.State != BUCKET_STAT_READY {
+				continue
+			}
+			begin, end, err := bkt.gcCheckRange(0, -1, 0)
+			if err != nil {
+				continue // nothing below the head
+			}
+			s.gcMgr.gc(bkt, begin, end, job.PostGCMerge)
+			if n := len(bkt.GCHistory); n > 0 {
+				if e := bkt.GCHistory[n-1].Err; e != nil {
+					res.GCErr = e.Error()
+				}
+				res.GCMoved += bkt.GCHistory[n-1].NumBefore - bkt.GCHistory[n-1].NumReleased
+			}
+		}
+		res.KeysGC = readAll()
+	}
 	discardStore(s)
 	return
 }
 
 // recoverImages runs the child until every image has a result. Images during which the child died get OpenErr.
-func recoverImages(cfg *Cfg, images []string, work string) ([]recResult, error) {
-	job := recoverJob{Cfg: *cfg, Images: images, Out: filepath.Join(work, "results.jsonl")}
+func recoverImages(cfg *Cfg, images []string, work string, postGC, postGCMerge bool) ([]recResult, error) {
+	job := recoverJob{Cfg: *cfg, Images: images, Out: filepath.Join(work, "results.jsonl"), PostGC: postGC, PostGCMerge: postGCMerge}
 	os.Remove(job.Out)
 	jb, _ := json.Marshal(job)
 	jobPath := filepath.Join(work, "job.json")
@@ -532,6 +567,34 @@ func checkRecovered(r *histRunner, img *crashImage, res *recResult, st *crashSta
 	if res.Usable != "" {
 		return fmt.Errorf("%s: store not usable after recovery: %s", desc, res.Usable)
 	}
+	return checkPostGC(cfg, res, st, desc, nil)
+}
+
+// checkPostGC: a GC pass on the recovered store changes no read (the probe write went to a new head file).
+func checkPostGC(cfg *Cfg, res *recResult, st *crashStats, desc string, skip map[string]bool) error {
+	if res.KeysGC == nil {
+		return nil
+	}
+	if res.GCErr != "" {
+		return fmt.Errorf("%s: a GC pass on the recovered store ended with error %s", desc, res.GCErr)
+	}
+	st.postGC++
+	if res.GCMoved > 0 {
+		st.postGCMoved++
+	}
+	for k, key := range cfg.Keys {
+		a, b := res.Keys[k], res.KeysGC[k]
+		if a.S == "error" || skip[string(key)] {
+			continue // judged (or excluded by a known finding) above
+		}
+		same := a.S == b.S && a.Len == b.Len && a.Sum == b.Sum && a.Flag == b.Flag
+		if a.S == "tomb" && b.S == "miss" || a.S == "miss" && b.S == "tomb" {
+			same = true // a pass from file 0 may drop a tombstone
+		}
+		if !same {
+			return fmt.Errorf("%s: key %q read %s (ver %d, len %d, sum %s) after recovery and %s (ver %d, len %d, sum %s %s) after a GC pass on the recovered store", desc, key, a.S, a.Ver, a.Len, a.Sum, b.S, b.Ver, b.Len, b.Sum, b.Err)
+		}
+	}
 	return nil
 }
 
@@ -574,7 +637,11 @@ func checkRecoveredGC(r *histRunner, img *crashImage, res *recResult, st *crashS
 	if res.Usable != "" {
 		return fmt.Errorf("%s: store not usable after recovery: %s", desc, res.Usable)
 	}
-	return nil
+	var skip map[string]bool
+	if verifkit.Known("C07-torn-inplace") {
+		skip = img.affected
+	}
+	return checkPostGC(cfg, res, st, desc, skip)
 }
 
 func refBucketOf(key []byte, depth int) int {
@@ -619,10 +686,12 @@ func hintAheadOfData(dir string) bool {
 }
 
 type crashStats struct {
-	images   int
-	torn     int
-	refused  int
-	excluded map[string]int
+	images      int
+	torn        int
+	refused     int
+	postGC      int
+	postGCMoved int
+	excluded    map[string]int
 }
 
 // ---------------------------------------------------------------------------
@@ -661,7 +730,7 @@ func (cc *crashCheck) runCase(h *History) (r *histRunner, st *crashStats, err er
 		err = r.run()
 	}()
 	defer func() {
-		if snap != nil && snap.base != "" {
+		if snap != nil && snap.base != "" && os.Getenv("VERIF_KEEP_IMAGES") == "" {
 			os.RemoveAll(snap.base)
 		}
 	}()
@@ -681,7 +750,9 @@ func (cc *crashCheck) runCase(h *History) (r *histRunner, st *crashStats, err er
 	for i, img := range snap.images {
 		dirs[i] = img.dir
 	}
-	results, e := recoverImages(&h.Cfg, dirs, snap.base)
+	// the recovered store is also collected once (merge step on for histories with an even number of ops: a cheap,
+	// case-determined choice) and read again
+	results, e := recoverImages(&h.Cfg, dirs, snap.base, true, len(h.Ops)%2 == 0)
 	if e != nil {
 		return r, st, e
 	}
@@ -742,6 +813,8 @@ func (cc *crashCheck) check(t *testing.T) {
 		stats.Add("images", int64(st.images))
 		stats.Add("images_torn", int64(st.torn))
 		stats.Add("images_refused", int64(st.refused))
+		stats.Add("images_collected_after_recovery", int64(st.postGC))
+		stats.Add("images_collected_after_recovery_with_relocation", int64(st.postGCMoved))
 		nontrivial := err == nil && st.images >= 5 && (r.labels["overwrite"] || r.labels["delete"])
 		if cc.gcOnly {
 			nontrivial = err == nil && r.labels["kill_in_gc"] && r.labels["gc_released"]
